@@ -135,6 +135,12 @@ parseSegments:
 		return nil, fmt.Errorf("no metadata found")
 	}
 
+	// An ICC profile error found while parsing stands; don't assemble a
+	// profile from whichever chunks happened to be accepted
+	if _, iccErr := md.ICCProfileData(); iccErr != nil {
+		return md, nil
+	}
+
 	// Incomplete or missing ICC profile
 	if len(iccProfileChunks) != iccProfileChunksExtracted {
 		_, iccErr := md.ICCProfileData()
